@@ -333,10 +333,9 @@ def gen_scenarios(rng):
             ops.append({"op": "dequeue", "now": now, "route": "", "target": "", "batch": 5, "ttl": SEC})
         hs.append({"cfg": _cfg0(), "ops": ops, "snap_every": 1})
     # S4: retention ages count from the right instant (delivered: from the ack; queued / dead: from received_at)
-    for _ in range(3):
+    for kind in ("delivered", "dead", "queued"):
         D = rng.choice([SEC, 10 * SEC])
         iv = rng.choice([1, MS])
-        kind = rng.choice(["delivered", "dead", "queued"])
         cfg = _cfg0(prune_iv=iv, deliv_age=D if kind == "delivered" else 0, dlq_age=D if kind == "dead" else 0,
                     ret_age=D if kind == "queued" else 0)
         now = BASE + rng.randrange(1000) * SEC
